@@ -54,6 +54,10 @@ def gen_spec(rng, cfg):
             return 100 + i           # int key in a dict
         if r < 0.15:
             return "%s %s'q" % (nm, salt)  # key with space and quote
+        if r < 0.2:
+            return "r%s_%s" % (salt, nm)   # key that contains a container label (r<salt> is the first root)
+        if r < 0.23:
+            return "%s[%s].x" % (nm, salt)  # key that looks like a path
         return "%s%s" % (nm, salt)
 
     def leaf():
